@@ -29,6 +29,13 @@ func c14Harness(cfg *Cfg) func(x *mc.Exec) {
 	kinds := accKinds(false)
 	kinds = append(kinds, WK{Kind: "flate", Level: 0}, WK{Kind: "flate", Level: 6})
 	kinds = append(kinds, containerKinds([]int{-2, 1, 2, 6})...)
+	if !cfg.Thorough {
+		// quick tier: one representative per distinct code path (the 4 KiB constructor's levels 3..9 and -1 run the
+		// level-2 compressor; gzip/zlib level 2 adds nothing over 1 and 6 for error propagation)
+		kinds = []WK{{Kind: "flate", Level: 1}, {Kind: "flate", Level: 2}, {Kind: "flate", Level: -1}, {Kind: "flate", Level: -2},
+			{Kind: "flate4k", Level: 1}, {Kind: "flate4k", Level: 2}, {Kind: "flate4k", Level: -2}, {Kind: "flate", Level: 0}, {Kind: "flate", Level: 6}}
+		kinds = append(kinds, containerKinds([]int{-2, 1, 6})...)
+	}
 	d := 2
 	if cfg.Thorough {
 		d = 3
